@@ -6,9 +6,9 @@ exceptions the traits notification machinery swallowed and handed to the excepti
 (push_exception_handler(handler=recording, reraise_exceptions=False)) or that were reported as
 unraisable (weakref callbacks)."""
 import gc
+import json
 import logging
 import os
-import signal
 import sys
 
 sys.path.insert(0, os.path.dirname(os.path.abspath(__file__)))
@@ -42,30 +42,6 @@ def _unraisable(u):
 
 push_exception_handler(handler=_exc_handler, reraise_exceptions=False, main=True)
 sys.unraisablehook = _unraisable
-
-
-# Watchdog: the property forbids unbounded recursion.  Without the lock table the propagation does not
-# loop forever (RecursionError is swallowed by the handlers' bare `except: pass`) but takes time
-# exponential in the recursion limit.  When one operation runs longer than OP_BUDGET seconds the alarm
-# handler lowers the recursion limit to the current depth, so that every further call fails and the
-# swallowing handlers unwind in linear time; the operation is then reported as RecursionError.
-OP_BUDGET = 5.0
-BASE_LIMIT = sys.getrecursionlimit()
-TIMED_OUT = [False]
-
-
-def _on_alarm(signum, frame):
-    TIMED_OUT[0] = True
-    depth, f = 0, frame
-    while f is not None:
-        depth, f = depth + 1, f.f_back
-    try:
-        sys.setrecursionlimit(depth + 3)
-    except RecursionError:
-        pass
-
-
-signal.signal(signal.SIGALRM, _on_alarm)
 
 
 def make_recorder(oid, counts):
@@ -116,7 +92,7 @@ def mutate(lst, m):
         raise RuntimeError("unknown mutator %r" % (m,))
 
 
-def run_case(case):
+def run_case(case, emit=None):
     counts = {}
     pool = []
     for oid, vals in enumerate(case["init"]):
@@ -132,8 +108,6 @@ def run_case(case):
         counts.clear()
         LOGGED[0] = 0
         res = "Done"
-        TIMED_OUT[0] = False
-        signal.setitimer(signal.ITIMER_REAL, OP_BUDGET)
         try:
             k = op[0]
             if k == "Assign":
@@ -154,10 +128,6 @@ def run_case(case):
         except Exception as e:  # noqa: BLE001
             res = dlib.exn_name(e, EXN)
             e = None
-        signal.setitimer(signal.ITIMER_REAL, 0)
-        if TIMED_OUT[0]:
-            sys.setrecursionlimit(BASE_LIMIT)
-            res = "RecursionError"
         vals, cnt = [], []
         for oid, o in enumerate(pool):
             if o is None:
@@ -167,13 +137,88 @@ def run_case(case):
                 vals.append([o.s0, o.s1, list(o.l0), list(o.l1)])
                 cnt.append([counts.get((oid, n), 0) for n in NAMES])
         out.append(dict(out=res, vals=vals, cnt=cnt, logged=LOGGED[0]))
+        if emit is not None:
+            emit(out[-1])
     pool[:] = []
     return out
 
 
-def main():
+# ---------------------------------------------------------------- watchdog
+# The property forbids unbounded recursion.  Without the lock table the propagation does not loop
+# forever (RecursionError is swallowed by the handlers' bare `except: pass`) but takes time exponential
+# in the recursion limit, so the histories run in a worker process that reports every finished
+# operation; when one operation takes longer than OP_BUDGET seconds the worker is killed, the operation
+# is recorded as RecursionError (the history is cut there) and a new worker continues with the next
+# history.  After MAX_TIMEOUTS such events the remaining histories are returned empty (not run).
+OP_BUDGET = 8.0
+MAX_TIMEOUTS = 3
+
+
+def worker():
     cases = dlib.load()
-    dlib.dump([run_case(c) for c in cases])
+    w = sys.stdout
+    for k, c in enumerate(cases):
+        def emit(ob, k=k):
+            w.write(json.dumps([k, ob]) + "\n")
+            w.flush()
+        run_case(c, emit)
+        w.write(json.dumps([k, None]) + "\n")
+        w.flush()
+
+
+def supervise(cases):
+    import selectors
+    import subprocess
+    results = [None] * len(cases)
+    start, timeouts = 0, 0
+    while start < len(cases) and timeouts < MAX_TIMEOUTS:
+        proc = subprocess.Popen([sys.executable, os.path.abspath(__file__), "--worker"],
+                                stdin=subprocess.PIPE, stdout=subprocess.PIPE)
+        proc.stdin.write(json.dumps(cases[start:]).encode())
+        proc.stdin.close()
+        sel = selectors.DefaultSelector()
+        sel.register(proc.stdout, selectors.EVENT_READ)
+        buf, cur, cur_k, done, hung = b"", [], 0, False, False
+        while not done:
+            if not sel.select(timeout=OP_BUDGET):
+                hung = True
+                break
+            chunk = os.read(proc.stdout.fileno(), 1 << 16)
+            if not chunk:
+                done = True
+                break
+            buf += chunk
+            while b"\n" in buf:
+                line, buf = buf.split(b"\n", 1)
+                k, ob = json.loads(line)
+                if ob is None:
+                    results[start + k] = cur
+                    cur, cur_k = [], k + 1
+                else:
+                    cur.append(ob)
+        sel.close()
+        if hung:
+            proc.kill()
+            proc.wait()
+            c = cases[start + cur_k]
+            prev = cur[-1] if cur else dict(vals=[[v[0], v[1], list(v[2]), list(v[3])] for v in c["init"]])
+            cur.append(dict(out="RecursionError", vals=prev["vals"], cnt=[[0] * len(v) for v in prev["vals"]],
+                            logged=0))
+            results[start + cur_k] = cur
+            start, timeouts = start + cur_k + 1, timeouts + 1
+        else:
+            proc.wait()
+            if proc.returncode != 0 or start + cur_k < len(cases):
+                sys.exit(proc.returncode or 3)     # the worker crashed: no verdict from this driver run
+            start = len(cases)
+    return [r if r is not None else [] for r in results]
+
+
+def main():
+    if "--worker" in sys.argv:
+        worker()
+    else:
+        dlib.dump(supervise(dlib.load()))
 
 
 if __name__ == "__main__":
